@@ -340,7 +340,7 @@ impl Prop for C16 {
                 if let Op::ExecShared { ast, .. } = op {
                     shared_users.entry(*ast).or_insert_with(std::collections::BTreeSet::new).insert(t);
                 }
-                if let Op::Exec { prog, .. } | Op::ParseExec { prog, .. } | Op::Parse { prog } = op {
+                if let Op::Exec { prog, .. } | Op::ExecSole { prog, .. } | Op::ParseExec { prog, .. } | Op::Parse { prog } = op {
                     *texts.entry(prog.text()).or_insert(0) += 1;
                 }
             }
